@@ -1,12 +1,14 @@
 import Driver.Proto
 import Driver.Ops.Dos
+import Driver.Ops.Read
+import Driver.Ops.Write
 /- Dispatch table: op-name prefix → handler (model evaluation → canonical response line).
    One file per stream under `Driver/Ops/`; register it here. -/
 
 namespace Driver
 
 def handlers : List (String × (String → Args → Option String)) :=
-  [ ("dos.", opDos) ]
+  [ ("dos.", opDos), ("read.", opRead), ("write.", opWrite) ]
 
 def dispatch (op : String) (a : Args) : String :=
   match handlers.find? (fun h => op.startsWith h.1) with
